@@ -86,6 +86,8 @@ class AttributeCollection(MutableMapping[int, Attribute]):
     cached: ClassVar[AttributeCollection | None] = None
     # previously parsed attribute, from which cached was made of
     previous: ClassVar[Buffer] = b''
+    # the session the cached collection was decoded for: the same bytes can mean something else on another one
+    previous_negotiated: ClassVar['Negotiated | None'] = None
 
     representation: ClassVar[dict[int, tuple[str, str, str | tuple[str, ...], str, str]]] = {
         # key:  (how, default, name, text_presentation, json_presentation),
@@ -355,7 +357,7 @@ class AttributeCollection(MutableMapping[int, Attribute]):
 
     @classmethod
     def unpack(cls, data: Buffer, negotiated: Negotiated) -> AttributeCollection:
-        if cls.cached and data == cls.previous:
+        if cls.cached and data == cls.previous and negotiated is cls.previous_negotiated:
             return cls.cached
 
         attributes = cls().parse(data, negotiated)
@@ -368,9 +370,11 @@ class AttributeCollection(MutableMapping[int, Attribute]):
 
         if Attribute.CODE.MP_REACH_NLRI not in attributes and Attribute.CODE.MP_UNREACH_NLRI not in attributes:
             cls.previous = data
+            cls.previous_negotiated = negotiated
             cls.cached = attributes
         else:
             cls.previous = b''
+            cls.previous_negotiated = None
             cls.cached = None
 
         return attributes
